@@ -454,12 +454,13 @@ def relsPathOf (sheetPath : Bytes) : Res (Bytes × Bytes) :=
     .ok (base, base ++ [47, 95, 114, 101, 108, 115] ++ file ++ [46, 114, 101, 108, 115])
 
 /-- what one table relationship contributes to `table_locations`: `../x` is resolved against the parent
-    of the sheet's folder, an absolute part name `/xl/…` loses its leading slash (fix found by C17), any
+    of the sheet's folder (the package root when the sheet part sits directly in `xl/`: fix d0ab106, the
+    pinned code panicked there), an absolute part name `/xl/…` loses its leading slash (fix found by C17), any
     other target is taken as an archive entry name -/
 def tableLocation (base target : Bytes) : Res (Option Bytes) :=
   if target.take 3 = [46, 46, 47] then
     match rfindSlash base with
-    | none => .panic "Must be a parent folder"
+    | none => .ok (some (target.drop 3))
     | some i => .ok (some (base.take i ++ target.drop 2))
   else if target = [] then .ok none
   else if target.take 1 = [47] then .ok (some (target.drop 1))
